@@ -10,6 +10,14 @@ for l in open('/verif/properties.jsonl'):
 suffix = sys.argv[3] if len(sys.argv) > 3 else ""
 wt = "/tmp/seed/%s%s" % (pid, suffix)
 out = "/tmp/seed/%s_out%s" % (pid, suffix)
+import os
+EXTRA = ""
+if os.environ.get("SEED_ROUND5"):
+    EXTRA = """
+Additional request for this round: at least one of the changes should consist of TWO cooperating edits in different
+functions (or files) that each look harmless alone and only together break the property; and at least one should need a
+multi-step sequence of API calls (setters / recalculation / conversion in a particular order, or reuse of one model
+object) or a rarely used combination of configuration options in order to manifest."""
 print(f"""You are helping to evaluate a verification effort for the open-source C++ project GM2Calc (a library and CLI that
 computes MSSM and 2HDM contributions to the muon anomalous magnetic moment from SLHA input).
 
@@ -49,4 +57,4 @@ For each change k = 1..{n}:
      files_changed, tests_passed (true/false as you observed), demo_unchanged_exit, demo_changed_exit.
   4. Restore the tree (git -C {wt} checkout -- .).
 At the end leave the worktree clean of source changes (keep _build). In your final answer list the {n} changes in two lines each.
-Do not try to be adversarial towards any particular checker -- just make realistic, subtle, property-breaking changes.""")
+Do not try to be adversarial towards any particular checker -- just make realistic, subtle, property-breaking changes.""" + EXTRA)
